@@ -1,7 +1,7 @@
 #!/bin/sh
 # Run the thorough tier of every check once; one line per check.
 S=${1:-0}
-for c in C15 C13 C09 C07 C08 C06 C01 C02 C03 C10 C11 C12 C05; do
+for c in ${CHECKS:-C15 C13 C09 C07 C08 C06 C01 C02 C03 C10 C11 C12 C05}; do
   t0=$(date +%s)
   VERIF_SEED=$S VERIF_TIER=thorough timeout 10800 ./check $c > thorough_$c.log 2>&1
   rc=$?
